@@ -23,11 +23,15 @@ GEN = r"""
 B4 == {<<0,0,0,0>>, <<127,255,255,255>>, <<255,255,255,255>>}
 SidOfLen(n) == [i \in 1..n |-> 96 + i]
 Modes == {"rc", "exp", "both"}
-A(rc, mode) == [app |-> <<9,9,9,9>>, hbh |-> <<8,8,8,8>>, e2e |-> <<7,7,7,7>>, eflag |-> FALSE,
-                hasSid |-> TRUE, sid |-> <<120, 59, 49, 59, 50>>,
+A(rc, mode, ef, hs) == [app |-> <<9,9,9,9>>, hbh |-> <<8,8,8,8>>, e2e |-> <<7,7,7,7>>, eflag |-> ef,
+                hasSid |-> hs, sid |-> IF hs THEN <<120, 59, 49, 59, 50>> ELSE <<>>,
                 hasRc |-> mode \in {"rc", "both"}, rc |-> rc, hasExp |-> mode \in {"exp", "both"}]
 R(x, n) == [app |-> x, hbh |-> x, e2e |-> <<x[4], x[3], x[2], 1>>, hasSid |-> n > 0, sid |-> SidOfLen(n)]
-Pairs == {[a |-> A(rc, mode), r |-> R(x, n)] : rc \in Rcs, mode \in Modes, x \in B4, n \in SIDLENS}
+\* the handler's answer as typed classes build it (own Session-Id, E flag clear), and the other three shapes for a third of the codes
+Plain == {[a |-> A(rc, mode, FALSE, TRUE), r |-> R(x, n)] : rc \in Rcs, mode \in Modes, x \in B4, n \in SIDLENS}
+Odd == {[a |-> A(rc, mode, ef, hs), r |-> R(x, n)] : rc \in {w \in Rcs : w[4] % 3 = 0}, mode \in Modes, x \in {<<127,255,255,255>>}, n \in {0, 3},
+        ef \in BOOLEAN, hs \in BOOLEAN}
+Pairs == Plain \cup Odd
 Vecs == SetToSeq({[a |-> p.a, r |-> p.r, out |-> Decorate(p.a, p.r)] : p \in Pairs})
 """
 
@@ -89,7 +93,10 @@ def build_pair(rq, an, v, byname, rng):
     if ans.header.application_id is None:
         ans.header.application_id = 16777236
     # Session-Id of the answer as the handler left it
-    if ans.has_avp("session_id_avp"):
+    if not a.get("hasSid", True):
+        if ans.has_avp("session_id_avp"):
+            ans.pop("session_id_avp")
+    elif ans.has_avp("session_id_avp"):
         ans.session_id_avp.data = bytes(a["sid"])
         ans.refresh()
     elif r["hasSid"]:
@@ -104,6 +111,8 @@ def build_pair(rq, an, v, byname, rng):
     if a["hasExp"]:
         ans.append(ExperimentalResultAVP([VendorIdAVP(10415), ExperimentalResultCodeAVP(bytes(a["rc"]))]))
     ans.refresh()
+    if a.get("eflag") and not ans.header.is_error():
+        ans.header.set_error_bit(True)            # the handler has set the E flag itself
     # the request as peers send it: P set or cleared, possibly a retransmission (T); the answer as handlers build it: the typed
     # object itself or a copy() of a prepared template
     how = rng.randrange(6)
@@ -241,8 +250,7 @@ def run(rep):
         rep.violation(f"TLC rejects the recorded decorated answer {json.dumps(recs[i]['s'])} for {meta[i]['answer']} "
                       f"(Result-Code {int.from_bytes(bytes(meta[i]['a']['rc']), 'big')}, request Session-Id {bytes(meta[i]['r']['sid'])!r})", meta[i])
     rep.sample({"trace_record": recs[0]})
-    rep.assumptions += ["the handler's answer has the E flag clear and, when the request has a Session-Id, carries a Session-Id AVP",
-                        "when the sent answer carries no Result-Code (Experimental-Result only) the error flag is not constrained"]
+    rep.assumptions += ["when the sent answer carries no Result-Code (Experimental-Result only) the error flag is not constrained"]
 
 
 def replay(rep, path):
